@@ -145,6 +145,28 @@ func posModes(c *posCase, src []byte) []posObs {
 			_, _, err = bcl.Execute(q)
 			return lg.String(), err
 		})
+		// the same dump read with the Load method into a Prog that held a longer program with many more lines before
+		guard("Dump+Load into a used Prog+Execute", func() (string, error) {
+			p, err := bcl.Parse(src, "p", bcl.OptLogger(io.Discard), bcl.OptOutput(io.Discard))
+			if err != nil {
+				return "", err
+			}
+			var d bytes.Buffer
+			if err := p.Dump(&d); err != nil {
+				return "", err
+			}
+			var lg bytes.Buffer
+			old := strings.Repeat("\n", 60) + strings.Repeat("eval 1\n", 70000/7) // more line feeds than any case, at larger offsets too
+			q, err := bcl.Parse([]byte(old), "used", bcl.OptLogger(&lg), bcl.OptOutput(io.Discard))
+			if err != nil {
+				return "", err
+			}
+			if err := q.Load(&d); err != nil {
+				return "", err
+			}
+			_, _, err = bcl.Execute(q)
+			return lg.String(), err
+		})
 	}
 	return obs
 }
